@@ -26,6 +26,7 @@ RULE = ('Case = one source file (60 % hostilegen with continuation lines, ;-join
         'OPEN(NEWUNIT=, CONVERT=) and __FILE__ / __LINE__ tokens), parsed with FP and with REGEX (AllClasses). Non-trivial = both parses '
         'succeeded and >= 30 nodes with Source were checked; distinct = hash of the text.')
 CASES = {'quick': 480, 'thorough': 7000}
+THOROUGH_VALIDATED = True   # full thorough tier ran to completion with exit 0 on the unchanged tree
 MIN_NONTRIVIAL = {'quick': 250, 'thorough': 3500}
 ANCHORS = ['loki/frontend/source.py', 'loki/frontend/fparser.py', 'loki/frontend/regex.py']
 REQUIRED_REACH = ['get_source', 'source_from_current_line', 'source_from_sanitized_span']
